@@ -34,6 +34,13 @@ pub fn from_join(
         JoinConstraint::Using => return not_impl_err!("join constraint: `using`"),
     }
 
+    // A null-aware anti join (the plan of `NOT IN (subquery)`) drops every row when
+    // the right side has a NULL key. A JoinRel cannot express that; writing it as a
+    // plain anti join would change the rows the plan returns.
+    if join.null_aware {
+        return not_impl_err!("null-aware anti join");
+    }
+
     let left = producer.handle_plan(join.left.as_ref())?;
     let right = producer.handle_plan(join.right.as_ref())?;
     let join_type = to_substrait_jointype(join.join_type);
